@@ -30,6 +30,36 @@ _AMEND_JOB = contextvars.ContextVar("c12_amend_job", default=None)
 _IN_PROMOTED = contextvars.ContextVar("c12_in_promoted", default=False)
 
 
+class BuildHang(Exception):
+    pass
+
+
+@contextlib.contextmanager
+def watchdog(seconds=180):
+    """e3.build has its own asyncio timeout; this is the last resort against a build that blocks outside the
+    event loop's control (seen once in about a hundred check runs, not reproduced): SIGALRM dumps all stacks to
+    stderr and raises BuildHang in the main thread, which the check reports as a crash of the phase instead of
+    hanging. No effect outside the main thread."""
+    import faulthandler
+    import signal
+    import sys
+    import threading
+    if threading.current_thread() is not threading.main_thread():
+        yield
+        return
+
+    def on_alarm(signum, frame):
+        faulthandler.dump_traceback(file=sys.stderr, all_threads=True)
+        raise BuildHang(f"an E3 build did not return within {seconds} s")
+    old = signal.signal(signal.SIGALRM, on_alarm)
+    signal.setitimer(signal.ITIMER_REAL, seconds)
+    try:
+        yield
+    finally:
+        signal.setitimer(signal.ITIMER_REAL, 0)
+        signal.signal(signal.SIGALRM, old)
+
+
 class Recorder:
     def __init__(self):
         self.events = []          # (kind, arg, nrunning_after, namending_after)
@@ -394,7 +424,7 @@ def run_build(proj, njob, avail, schedule, timeout=90):
     from . import e3
     with tempfile.TemporaryDirectory(prefix="verif-c12-") as tmp:
         proj.materialise(tmp)
-        with instrumented() as rec:
+        with instrumented() as rec, watchdog():
             res = e3.build(tmp, proj.program, njob=njob,
                            resources=",".join(f"{k}:{v}" for k, v in avail.items()) or None,
                            schedule=schedule, timeout=timeout, keep_going=True)
@@ -520,7 +550,8 @@ def run_checking(proj, avail, history, njob, schedule, timeout=90):
     """Both builds on the real serve() (restart mode); returns [BuildResult, BuildResult] and the final
     program (for the annotation of define_step calls)."""
     from . import e3
-    results = e3.run_history(proj, history, mode="restart", njob=njob,
-                             resources=",".join(f"{k}:{v}" for k, v in avail.items()) or None,
-                             schedule=schedule, timeout=timeout, keep_going=True)
+    with watchdog(300):
+        results = e3.run_history(proj, history, mode="restart", njob=njob,
+                                 resources=",".join(f"{k}:{v}" for k, v in avail.items()) or None,
+                                 schedule=schedule, timeout=timeout, keep_going=True)
     return results, e3.final_project(proj, history).program
